@@ -1361,3 +1361,13 @@ for _c in CONTROLS['C14']:
         # keeps "accepted at 1.35, not at 1.34" true; it is caught only by
         # the subset/monotonicity obligation
         _c['expect'] = 'R14.2'
+
+CONTROLS['C14'] += [
+    M('c14-swap-gated-keys', HA,
+      "        show_consumer_gen = want_version.matches((1, 28))\n        if show_consumer_gen:\n            result['consumer_generation'] = consumer.generation\n        show_consumer_type = want_version.matches((1, 38))",
+      "        show_consumer_gen = want_version.matches((1, 38))\n        if show_consumer_gen:\n            result['consumer_generation'] = consumer.generation\n        show_consumer_type = want_version.matches((1, 28))",
+      'R14.6'),
+    M('c14-traits-in-summaries-ungated', HAC,
+      "        if include_traits:\n            ret[ps.resource_provider.uuid]['traits'] = ps.traits",
+      "        ret[ps.resource_provider.uuid]['traits'] = ps.traits", 'R14.6'),
+]
